@@ -40,6 +40,8 @@ def kinds_for(cfg) -> List[str]:
         ks.append("P+")
     if cfg.get("eos"):
         ks.append("X")
+    if cfg.get("rshapes"):
+        ks = list(RSHAPES) + ["O", "N", "Q"]
     return ks
 
 
@@ -48,6 +50,8 @@ def build(kind: str, rid: Any, token: Any, seq: int) -> Any:
     j = {"jsonrpc": "2.0"}
     if kind == "R":
         return {**j, "id": rid, "result": {"v": "R", "seq": seq, "n": None}}
+    if kind in RSHAPES:  # results need not be JSON objects
+        return {**j, "id": rid, "result": RSHAPES[kind]}
     if kind == "R0":
         return {**j, "id": rid, "result": {}}
     if kind == "E":
@@ -80,6 +84,8 @@ def build(kind: str, rid: Any, token: Any, seq: int) -> Any:
 
 
 CLOSE = {"end-of-stream": True}
+RSHAPES = {"Rlist": ["v", 1, None], "Rstr": "text", "Rnum": 7, "Rzero": 0, "Rfalse": False, "Rempty-list": [], "Rempty-str": "",
+           "Rfloat": 1.5, "Rnested": [[1], {"k": None}]}
 
 
 def _same_id(a, b) -> bool:
@@ -322,9 +328,10 @@ def run_one(ctl: explorer.Ctl, cfg: Dict[str, Any]) -> Dict[str, Any]:
             bad("late-completion", f"ended at {elapsed}, deadline {T_eff}")
     elif exp_kind == okind:
         if okind == "result":
-            ok = oval == exp_payload and abs(elapsed - exp_t) < 1e-9
+            same = _strict(oval, exp_payload)
+            ok = same and abs(elapsed - exp_t) < 1e-9
             if not ok:
-                if oval != exp_payload:
+                if not same:
                     bad("wrong-payload", f"returned {oval!r}, expected {exp_payload!r}", returned=_who(oval))
                 else:
                     bad("wrong-time", f"result returned at {elapsed}, response arrived at {exp_t}")
@@ -390,6 +397,11 @@ def run_one(ctl: explorer.Ctl, cfg: Dict[str, Any]) -> Dict[str, Any]:
     return obs
 
 
+def _strict(a, b) -> bool:
+    from ..jsonrpc_ref import strict_eq
+    return strict_eq(a, b)
+
+
 def _who(v):
     if isinstance(v, dict):
         if "method" in v:
@@ -416,6 +428,9 @@ def _kind_of(w, rid, token):
     if "error" in w:
         return "E" if same else "Oe"
     if same:
+        for name, val in RSHAPES.items():
+            if _strict(w.get("result"), val):
+                return name
         return "R0" if w["result"] == {} else "R"
     if w.get("id") == OTHER_ID:
         return "O"
@@ -699,6 +714,11 @@ def configs_for(tier: str):
             for cb in (False, True):
                 full.append({"T": T, "id": idk, "params": "none", "cb": cb, "L": 1, "rich": True, "eos": True})
                 deep.append({"T": T, "id": idk, "params": "none", "cb": cb, "L": 2, "rich": False, "eos": True})
+    for T in (1.0,):
+        for idk in ("uuid", "digits"):
+            for cb in (False, True):
+                full.append({"T": T, "id": idk, "params": "none", "cb": cb, "L": 1, "rich": False, "rshapes": True})
+                deep.append({"T": T, "id": idk, "params": "none", "cb": cb, "L": 2, "rich": False, "rshapes": True})
     deeper = []
     for T in (0.3, 1.0):
         for idk in ("digits",):
